@@ -11,11 +11,11 @@ package rtcp
 
 // ---- built-ins of the contract language (interpreted by the verifier; bodies only matter for replay) ----
 
-func iter() int                   { return 0 }
-func allocated() int              { return 0 }
-func old[T any](x T) T            { return x }
-func unchanged[T any](x T) bool   { return true }
-func isFresh[T any](s []T) bool   { return true }
+func iter() int                 { return 0 }
+func allocated() int            { return 0 }
+func old[T any](x T) T          { return x }
+func unchanged[T any](x T) bool { return true }
+func isFresh[T any](s []T) bool { return true }
 func sameSlice[T any](a, b []T) bool {
 	return len(a) == len(b) && (len(a) == 0 || &a[0] == &b[0])
 }
